@@ -50,7 +50,10 @@ Wanted(cs) == { q \in 1..Len(cs.args) : cs.dst[q].k # "none" }
 RECURSIVE PlaceArgs(_, _, _)
 PlaceArgs(m, cs, q) ==
   IF q > Len(cs.args) THEN m
-  ELSE LET s == cs.src[q] n == SrcTy(cs, q).sz v == ArgVal(q, n) IN
+  ELSE LET s == cs.src[q] n == SrcTy(cs, q).sz
+           \* Apple arm64: the caller sign/zero-extends integer arguments narrower than 32 bits to 32 bits
+           v == IF cs.env = "a64-apple" /\ SrcTy(cs, q).c = "int" /\ n < 4 /\ s.k = "reg"
+                THEN Val(q, "", n, 4, IF SrcTy(cs, q).sg THEN "s" ELSE "z") ELSE ArgVal(q, n) IN
        PlaceArgs(IF s.k = "reg" THEN RegPut(m, s.g, s.id, v)
                  ELSE IF s.k = "stack" THEN MemStore(m, <<"arg", s.off>>, n, v)
                  ELSE m, cs, q + 1)
@@ -101,13 +104,20 @@ vars == <<c, pc, m>>
 Case == Cases[c]
 Insts == Case.insts
 
-Init == /\ c \in 1..Len(Cases)
-        /\ pc = 1
-        /\ m = IF Judged(Cases[c]) THEN InitMachine(Cases[c]) ELSE NewMachine("x86", 64, 4)
-Next == /\ Judged(Case) /\ pc <= Len(Insts) /\ m.fault = ""
-        /\ m' = Exec(m, Insts[pc])
-        /\ pc' = pc + 1
-        /\ c' = c
+(* c = 0: the root (pc = 0) and the NB block states (pc = -b); TLC's workers take the blocks in parallel *)
+NC == Len(Cases)
+NB == IF NC <= 200 THEN 1 ELSE 64
+Empty == NewMachine("x86", 64, 4)
+Init == c = 0 /\ pc = 0 /\ m = Empty
+Next == \/ c = 0 /\ pc = 0 /\ c' = 0 /\ pc' \in { 0 - q : q \in 1..NB } /\ m' = Empty
+        \/ /\ c = 0 /\ pc < 0
+           /\ c' \in { q \in 1..NC : q % NB = (0 - pc) % NB }
+           /\ pc' = 1
+           /\ m' = IF Judged(Cases[c']) THEN InitMachine(Cases[c']) ELSE Empty
+        \/ /\ c > 0 /\ Judged(Case) /\ pc <= Len(Insts) /\ m.fault = ""
+           /\ m' = Exec(m, Insts[pc])
+           /\ pc' = pc + 1
+           /\ c' = c
 Spec == Init /\ [][Next]_vars
 
 AtEnd == pc = Len(Insts) + 1
@@ -125,12 +135,13 @@ BadOperand(ins) ==
   \E n \in 1..Len(ins.o) :
      LET o == ins.o[n] IN
      \/ o.k = "other"
-     \/ o.k = "reg" /\ (o.sz = 0 \/ o.g = "other" \/ (o.g = "vec" /\ o.sz < 4) \/ (ins.op \in VecOps /\ o.g # "vec"))
+     \/ o.k = "reg" /\ (o.sz = 0 \/ o.g = "other" \/ (o.g = "vec" /\ o.sz < 4))
 Malformed(cs) == \E n \in 1..Len(cs.insts) : BadOperand(cs.insts[n])
 MalformedOp(cs) == cs.insts[CHOOSE n \in 1..Len(cs.insts) : BadOperand(cs.insts[n])].op
 
 (* first broken clause, or <<>> *)
 Verdict ==
+  IF c = 0 THEN <<>> ELSE
   LET cs == Case IN
   IF cs.abort # "" THEN <<cs.family, "sanitizer-abort", cs.abort>>
   ELSE IF ~Judged(cs) THEN <<>>
